@@ -11,6 +11,8 @@ R15.1  context-sensitive taint: every hole of every emitted template is classifi
 R15.2  documentation blocks: values handed to DocumentationBlock(...) land in a docstring; render_docstring must escape
 R15.4  the sanitizers that are trusted in CODE positions (sanitize_method_name / _class_name / _module_name) produce
        valid identifiers for every input string                                              [abstract interpretation shared with C20]
+R15.6  a plain value emitted as whole line(s) (write_line / write_block of a local, a call, a conditional) carries no spec text that
+       bypassed every sanitizer on some way into it
 R15.5  json.dumps() used as a Python-literal maker for spec text passes ensure_ascii=False (non-BMP characters survive)
 R15.3  emitted code is never re-split with str.splitlines() outside docstring/comment assembly (splitlines also splits at
        U+2028, U+0085, FF, VT ..., which Python's tokenizer does not treat as line ends)
@@ -410,6 +412,64 @@ class FnTaint:
         return out
 
 
+TRIMS = {"strip", "rstrip", "lstrip", "removesuffix", "removeprefix", "split", "rsplit", "partition", "rpartition", "splitlines", "expandtabs", "translate"}
+
+
+def _is_escape_step(e: ast.AST) -> bool:
+    for n in ast.walk(e):
+        if isinstance(n, ast.Call) and isinstance(n.func, ast.Attribute) and n.func.attr == "replace" and len(n.args) == 2 and const_str(n.args[0]) in ("\\", '"""'):
+            return True
+        if isinstance(n, ast.Call) and (dotted(n.func) or "").split(".")[-1] in HELPER_ESCAPES:
+            return True
+    return False
+
+
+def _trim_after_escape(fn: Function, h: ast.AST) -> Optional[ast.AST]:
+    """A step that removes characters from an already escaped value (`x = x.replace('\\', ...)` ... `x = x.rstrip('"')`, `esc(x)[:80]`):
+    escaping is only meaningful as the *last* transformation - removing characters afterwards can cut an escape sequence in half
+    (backslash-quote x3 -> backslash-quote x2 + backslash), and the dangling backslash then escapes whatever follows the hole.  Returns the offending step."""
+    def trims(e: ast.AST, inner_escaped: bool) -> Optional[ast.AST]:
+        # a trimming call / slice applied (directly, in this expression) to a sub-expression that contains an escape step
+        for n in ast.walk(e):
+            if isinstance(n, ast.Call) and isinstance(n.func, ast.Attribute) and n.func.attr in TRIMS and (inner_escaped or _is_escape_step(n.func.value)):
+                if n.func.attr in ("splitlines", "split") and not inner_escaped:
+                    continue
+                return n
+            if isinstance(n, ast.Subscript) and isinstance(n.slice, ast.Slice) and (inner_escaped or _is_escape_step(n.value)):
+                return n
+        return None
+
+    t = trims(h, False)
+    if t is not None:
+        return t
+    if not isinstance(h, ast.Name):
+        return None
+    steps = []
+    for st in own_nodes(fn.node):
+        if isinstance(st, ast.Assign) and len(st.targets) == 1 and isinstance(st.targets[0], ast.Name) and st.targets[0].id == h.id:
+            steps.append(st)
+    steps.sort(key=lambda s_: s_.lineno)
+    escaped = False
+    for st in steps:
+        self_ref = any(isinstance(x, ast.Name) and x.id == h.id for x in ast.walk(st.value))
+        if not self_ref:
+            escaped = _is_escape_step(st.value)
+            t = trims(st.value, False)
+            if t is not None:
+                return t
+            continue
+        if escaped:
+            # a further step on the escaped value: only escapes may follow
+            for n in ast.walk(st.value):
+                if isinstance(n, ast.Call) and isinstance(n.func, ast.Attribute) and n.func.attr in TRIMS and any(isinstance(x, ast.Name) and x.id == h.id for x in ast.walk(n.func.value)):
+                    return n
+                if isinstance(n, ast.Subscript) and isinstance(n.slice, ast.Slice) and any(isinstance(x, ast.Name) and x.id == h.id for x in ast.walk(n.value)):
+                    return n
+        if _is_escape_step(st.value):
+            escaped = True
+    return None
+
+
 def _through_local_helper(fn: Function, h: ast.AST) -> ast.AST:
     """`helper(x)` where helper is a function defined inside `fn` (or a plain function of its module) whose body is one `return <expr>`:
     the hole is judged as that expression with the argument substituted (a one-line wrapper around json.dumps / an escaper stays visible)."""
@@ -547,6 +607,11 @@ def run(repo: Repo, rep: Report, tier: str) -> None:
                     esc = ft.escapes(h)
                     sub = f"{mod.relpath}:{fn.qualname} hole `{norm(h)[:40]}` in {st.kind} of `{t.text.replace(HOLE, '{}').strip()[:50]}`"
                     ok, why = _sanitized_for(st, esc, h)
+                    if ok and st.kind == DOCSTRING:
+                        cut = _trim_after_escape(fn, h)
+                        if cut is not None:
+                            ok, why = False, (f"characters are removed after the escaping (`{norm(cut)[:50]}`): an escape sequence can be cut in half "
+                                              "(`\\\"\\\"\\\"` -> `\\\"\\\"\\`) and the dangling backslash escapes the quote that follows the hole")
                     if ok:
                         rep.ok("R15.1", sub, why, fn.loc(node))
                     else:
@@ -573,6 +638,63 @@ def run(repo: Repo, rep: Report, tier: str) -> None:
                         rep.violation("R15.2", sub, f"{fn.fq}|docblock|{tainted}",
                                       f"fields {tainted} carry free spec text into a docstring and render_docstring applies no escaping "
                                       f"(has: {sorted(central_doc_escape)}): `\"\"\"` or a trailing backslash in a description ends the docstring early", fn.loc(c))
+    # ---------------------------------------------------------------- R15.6 whole lines that are not templates
+    # `writer.write_line(x)` / `write_block(x)` with x a plain value (a local, a call, a conditional) emits x as complete source lines;
+    # the lexical context is whatever the preceding lines opened.  Free spec text is acceptable there only if it went through *some*
+    # context's sanitizer on every way into x (docstring escaping, line-break removal, a literal maker, an identifier producer):
+    # a value that is raw under every context - e.g. one arm of a conditional that skips the escaping - can close the docstring it sits in.
+    n_bare = 0
+    for mn in mods:
+        mod = repo.modules[mn]
+        if mn.endswith(("code_writer", "line_writer")):
+            continue  # the writers themselves pass their argument through
+        for fn in mod.functions.values():
+            if "<locals>" in fn.qualname:
+                continue
+            ft6: Optional[FnTaint] = None
+            for c in calls_in(fn.node):
+                if not (isinstance(c.func, ast.Attribute) and c.func.attr in ("write_line", "write_block", "append_line") and c.args):
+                    continue
+                a = c.args[0]
+                if isinstance(a, (ast.JoinedStr, ast.Constant)) or (isinstance(a, ast.BinOp) and isinstance(a.op, ast.Add)):
+                    continue  # a template: R15.1
+                # the value written out through plain local assignments / conditionals (no loops, no containers: what a list of lines holds
+                # is judged where each line is built); a read of a free-text attribute that no call encloses is raw under every context
+                L6 = Locals(fn.node)
+
+                def _raw_reads(e: ast.AST, depth: int = 0, seen: Optional[Set[str]] = None) -> List[str]:
+                    seen = seen or set()
+                    if isinstance(e, ast.Attribute):
+                        if e.attr in TAINT_ATTRS and norm(e.value) not in ("os", "self", "os.path"):
+                            return [norm(e)]
+                        return []
+                    if isinstance(e, ast.Name):
+                        if e.id in seen or depth > 4:
+                            return []
+                        out_: List[str] = []
+                        for k_, v_, _ in L6.defs.get(e.id, []):
+                            if k_ == "assign" and v_ is not None and not isinstance(v_, ast.JoinedStr):
+                                out_ += _raw_reads(v_, depth + 1, seen | {e.id})
+                        return out_
+                    if isinstance(e, ast.IfExp):
+                        return _raw_reads(e.body, depth, seen) + _raw_reads(e.orelse, depth, seen)
+                    if isinstance(e, ast.BoolOp):
+                        return [r_ for v_ in e.values for r_ in _raw_reads(v_, depth, seen)]
+                    if isinstance(e, ast.Call) and dotted(e.func) == "str" and e.args:
+                        return _raw_reads(e.args[0], depth, seen)
+                    return []  # any other call / template / subscript: judged by the context-sensitive rules
+
+                raw_everywhere = sorted(set(_raw_reads(a)))
+                n_bare += 1
+                sub = f"{mod.relpath}:{fn.qualname} emits `{norm(a)[:50]}` as whole line(s)"
+                if raw_everywhere:
+                    rep.violation("R15.6", sub, f"{fn.fq}|raw-line|{norm(a)[:40]}",
+                                  f"spec text ({', '.join(raw_everywhere)[:80]}) can reach this emit without having passed any sanitizer (not on every way into `{norm(a)[:30]}`): "
+                                  "inside the docstring the surrounding lines open, `\"\"\"` in a description ends the docstring and the rest is parsed as code", fn.loc(c))
+                else:
+                    rep.ok("R15.6", sub, "no unsanitised spec text reaches this whole-line emit", fn.loc(c))
+    rep.count("R15.6:bare_value_emits", n_bare)
+    rep.require(n_bare >= 10, f"R15.6: only {n_bare} whole-line emits of plain values found (floor 10)")
     rep.count("R15.1:template_holes", n_holes)
     rep.count("R15.1:holes_by_context", by_ctx)
     rep.require(n_holes >= 350, f"R15.1: only {n_holes} template holes found (floor 350)")
